@@ -16,13 +16,18 @@ VARIANTS = {
     "SendToFx": ["base", "height", "token", "amount", "amount_zero", "sender", "receiver", "target_erc20", "target_other"],
     "BridgeCall": ["base", "height", "sender", "refund", "to", "to_eoa", "tx_origin", "token_changed", "tokens_added",
                    "tokens_removed", "tokens_empty", "tokens_reordered", "amount_changed", "amounts_reordered", "data",
-                   "data_empty", "memo", "memo_sendcallto", "value", "resplit_data_memo_1", "resplit_data_memo_2"],
+                   "data_empty", "memo", "memo_sendcallto", "value", "resplit_data_memo_1", "resplit_data_memo_2",
+                   # re-splits across every boundary of the hash input where both renderings can stay valid
+                   "resplit_amounts_a", "resplit_amounts_b", "resplit_amount_data_a", "resplit_amount_data_b",
+                   "resplit_data_value_a", "resplit_data_value_b", "resplit_data_value_c", "resplit_data_value_d",
+                   "resplit_value_memo_a", "resplit_value_memo_b"],
     "BridgeCallResult": ["base", "height", "call_nonce", "tx_origin", "success", "cause", "cause_empty"],
     "SendToExternal": ["base", "height", "batch_nonce", "token", "batch_nonce_unknown"],
     "BridgeToken": ["base", "height", "token", "name", "symbol", "decimals", "channel_ibc", "resplit_name_symbol",
-                    "name_with_slash_end", "symbol_with_slash_start"],
+                    "name_with_slash_end", "symbol_with_slash_start", "resplit_symbol_decimals",
+                    "resplit_decimals_channel_a", "resplit_decimals_channel_b"],
     "OracleSet": ["base", "height", "set_nonce", "member_power", "member_address", "member_added", "member_removed",
-                  "members_reordered", "set_nonce_wrong_members"],
+                  "members_reordered", "resplit_height_setnonce_a", "resplit_height_setnonce_b", "set_nonce_wrong_members"],
 }
 BAD = {"SendToExternal": ["token", "batch_nonce_unknown"], "OracleSet": ["set_nonce_wrong_members"]}
 PARKED = ("SendToFx", "BridgeCall", "BridgeCallResult")
@@ -54,8 +59,10 @@ for ct in TYPES:
     CLAIMID_GEN.append(dict(name="q-" + ct, tiers=["quick"], consts=consts(ct, 1), overrides=OV,
                             harness=[harness("eth", ct)], shards=14, rej_sample=3, explore=2, may_never_succeed=never))
     # thorough: any two contents besides base compete, all vote orders, eth and tron
+    # (BridgeCall has 31 contents: operations the specification rejects - second votes of an oracle - are sampled, 8 per state)
     CLAIMID_GEN.append(dict(name="t-" + ct, tiers=["thorough"], consts=consts(ct, 2), overrides=OV,
-                            harness=[harness("eth", ct), harness("tron", ct)], shards=16, rej_sample=0, explore=2, may_never_succeed=never))
+                            harness=[harness("eth", ct), harness("tron", ct)], shards=16, rej_sample=8 if ct == "BridgeCall" else 0,
+                            explore=2, may_never_succeed=never))
 
 
 def claimid(pid):
@@ -82,5 +89,5 @@ specs.REGISTRY["C03"] = claimid("C03")
 specs.MANIFEST.update({
  "C03": dict(category="model_checking", technique="TLA+ spec ClaimId.tla: TLC exhaustive model check + replay of every TLC-generated transition (votes with per-voter claim contents, executeClaim) on the real keeper for all six claim types + TLC evaluation of the C03 formulas on recorded real behaviours",
              text="ClaimId.tla models one event nonce voted on by three oracles, each submitting one of a table of claim contents (base plus one variant per field and value class of the claim type, list operations, empty/non-empty, re-splits of adjacent free-form strings incl. the '/' separator); in the design every content is its own tally. TLC enumerates every assignment of contents to voters in every vote order; each transition is executed through the real MsgClaim handler / executeClaim precompile on branches of the real multistore, and the attestation records, the parked claim and the effect actually applied (digest of all stores against the unanimous reference) are projected back and compared. Formulas: votes tallied together only if the voters submitted the same content; the observed/parked/executed content was submitted by a quorum; a vote is credited to its own content's tally only; executed content never changes.",
-             note="bounded: 3 oracles, one nonce, 5-21 contents per claim type (finite value classes, not all values), at most 1 (quick) / 2 (thorough) non-base contents competing per behaviour beyond single edges; IBC targets not exercised; trusted: TLC, the abstraction function (raw store reads, whole-store digest), the harness marker keys", ref="5 (C03)"),
+             note="bounded: 3 oracles, one nonce, 5-31 contents per claim type (finite value classes, not all values), at most 1 (quick) / 2 (thorough) non-base contents competing per behaviour beyond single edges; IBC targets not exercised; trusted: TLC, the abstraction function (raw store reads, whole-store digest), the harness marker keys", ref="5 (C03)"),
 })
